@@ -56,6 +56,8 @@ def run(ck):
     ck.rule("R5", "symbolic memory returns the bytes that were written: writer/reader byte-order agreement of MemArray (rules shared with C13-R2)", floor=5)
     from rules.c13 import byte_order_rules
     byte_order_rules(ck, ck.repo.mod(SE), "R5")
+    ck.rule("R7", "the emulated engine lays a value out big endian at its access width and reverses it last, only for little-endian VMs", floor=6)
+    emulated_byte_order_rules(ck, "R7")
     ck.rule("R6", "SymbolMngr store discipline: every path of write() updates the matching table; no bypass, no removal instead of a store", floor=10)
     from rules._symstore import symstore_rules
     symstore_rules(ck, "R6")
@@ -196,3 +198,74 @@ def run(ck):
     ok = bool(loop) and bool(upd) and bool(dst) and all(not cfg.can_reach(d.id, u.id) for d in dst for u in upd) and \
         all(cfg.can_reach(u.id, d.id) for d in dst for u in upd)
     ck.ob("R4", "eval_updt_irblock", ok, m.where(fn), "assignment blocks must be applied in order and IRDst evaluated after the last one")
+
+
+def emulated_byte_order_rules(ck, rid):
+    """The emulated engine's bridge to the concrete VM (EmulatedSymbExec.mem_write / mem_read): a value of `size` bytes is laid out most
+    significant byte first, brought to exactly `size` bytes, and THEN reversed when the VM is little endian - the reversal is the last
+    thing that happens to the bytes before vm.set_mem / the first after vm.get_mem.  A padding added after the reversal ends up on the
+    wrong side for big-endian targets; a reversal that is not tied to is_little_endian() swaps bytes on the wrong targets."""
+    from sa.facts import guard_facts, truthy
+    em2 = ck.repo.mod(ES)
+    meths = em2.methods("EmulatedSymbExec")
+    for mname, sink, src in (("mem_write", "self.vm.set_mem", None), ("mem_read", None, "self.vm.get_mem")):
+        fn = meths.get(mname)
+        if fn is None:
+            ck.ob(rid, "EmulatedSymbExec.%s:byte-order" % mname, False, ES, "method vanished")
+            continue
+        cfg = CFG(fn)
+        facts = guard_facts(cfg)
+
+        def reversal_of(nd):
+            """name reversed at this node, or None: an assignment whose value takes `<expr>[::-1]`"""
+            a = nd.ast
+            if nd.kind == "stmt" and isinstance(a, ast.Assign) and len(a.targets) == 1 and isinstance(a.targets[0], ast.Name):
+                for x in ast.walk(a.value):
+                    if isinstance(x, ast.Subscript) and isinstance(x.slice, ast.Slice) and x.slice.lower is None and x.slice.upper is None \
+                            and x.slice.step is not None and norm(x.slice.step) == "-1":
+                        return a.targets[0].id, x
+            return None, None
+        revs = [(nd,) + reversal_of(nd) for nd in cfg.nodes if reversal_of(nd)[0]]
+        ck.ob(rid, "EmulatedSymbExec.%s:reversal-present" % mname, len(revs) >= 1, em2.where(fn), "no byte reversal for little-endian VMs found")
+        for nd, name, sub in revs:
+            # tied to the VM's byte order: a must-fact at the node, or the reversal sits in the arm of a conditional expression on it
+            tied = truthy(facts.get(nd.id, frozenset()), "self.vm.is_little_endian()")
+            p = getattr(sub, "_parent", None)
+            ch = sub
+            while p is not None and p is not nd.ast and not tied:
+                if isinstance(p, ast.IfExp) and norm(p.test) == "self.vm.is_little_endian()" and any(x is ch for x in ast.walk(p.body)):
+                    tied = True
+                ch, p = p, getattr(p, "_parent", None)
+            ck.ob(rid, "EmulatedSymbExec.%s:reversal-iff-little-endian" % mname, tied, em2.where(nd.ast),
+                  "the bytes are reversed at a point where the VM is not known to be little endian")
+            if sink is not None:
+                sinks = [s_ for s_ in cfg.nodes if any(dotted(c.func) == sink and len(c.args) >= 2 and norm(c.args[1]) == name for c in node_calls(s_))]
+                ck.ob(rid, "EmulatedSymbExec.%s:stores-reversed-bytes" % mname, bool(sinks), em2.where(fn), "%s does not receive `%s`" % (sink, name))
+                late = []
+                for o in cfg.nodes:
+                    if o is nd or o.kind != "stmt":
+                        continue
+                    a = o.ast
+                    rebind = (isinstance(a, ast.Assign) and any(isinstance(t, ast.Name) and t.id == name for t in a.targets)) or \
+                        (isinstance(a, ast.AugAssign) and isinstance(a.target, ast.Name) and a.target.id == name)
+                    if rebind and cfg.can_reach(nd.id, o.id) and any(cfg.can_reach(o.id, s_.id) for s_ in sinks):
+                        late.append(norm(a)[:60])
+                ck.ob(rid, "EmulatedSymbExec.%s:reversal-is-last" % mname, not late, em2.where(nd.ast),
+                      "`%s` is changed after the byte-order reversal and before the store (%s): bytes added or removed there sit on the "
+                      "wrong end for one of the two byte orders" % (name, "; ".join(late)))
+            else:
+                # reader: nothing but the reversal happens to the bytes between get_mem and the integer conversion
+                early = []
+                srcs = [s_ for s_ in cfg.nodes if s_.kind == "stmt" and isinstance(s_.ast, ast.Assign) and any(dotted(c.func) == src for c in node_calls(s_))
+                        and isinstance(s_.ast.targets[0], ast.Name) and s_.ast.targets[0].id == name]
+                ck.ob(rid, "EmulatedSymbExec.%s:reverses-read-bytes" % mname, bool(srcs), em2.where(fn), "the reversed name `%s` does not hold the bytes of %s" % (name, src))
+                for o in cfg.nodes:
+                    if o is nd or o.kind != "stmt" or o in srcs:
+                        continue
+                    a = o.ast
+                    rebind = (isinstance(a, ast.Assign) and any(isinstance(t, ast.Name) and t.id == name for t in a.targets)) or \
+                        (isinstance(a, ast.AugAssign) and isinstance(a.target, ast.Name) and a.target.id == name)
+                    if rebind and any(cfg.can_reach(s_.id, o.id) for s_ in srcs):
+                        early.append(norm(a)[:60])
+                ck.ob(rid, "EmulatedSymbExec.%s:only-reversal" % mname, not early, em2.where(nd.ast),
+                      "the bytes read from the VM are changed (%s) besides the byte-order reversal" % "; ".join(early))
